@@ -26,6 +26,15 @@ NoCharge == {FALSE}
 WithCharge == {TRUE}
 S1 == {1}
 S210 == {2, 10}
+\* finely resolved fractional amounts: entry/scale with 4-5 significant digits
+\* 32-bit range: two keys only at scale 10^4 (one elimination step of products <= 4*10^8)
+Sh_Fine  == {<<1, 1, 1>>, <<1, 1, 2>>}
+Sh_Fine1 == {<<1, 1, 1>>}
+VFine4   == {0, 3333, 9474, 10000, 16667, 20000, 6285, 8333, 19167, 1667}
+VFine5   == {0, 33333, 94737, 100000, 166667, 62853, 83333, 191667, 16667, 200000, 12345}
+S1e4 == {10000}
+S1e5 == {100000}
+M_TF == {"True", "False"}
 M_All == {"True", "False", "None"}
 M_None == {"None"}
 D_None == {"none"}
